@@ -707,7 +707,27 @@ func (p *Proc) loopHead(st *State, n ast.Node, body *ast.BlockStmt, extraMod []*
 			mod.all = true
 		}
 	}
+	// the procedure's frame is an implicit invariant of every loop: proved on entry, assumed
+	// for the havocked arrays, proved again at each back edge (loopBack)
+	var frameKeys map[string]bool
+	allowed, whole, ftags, hasFrame := p.frameSets()
+	if hasFrame && !mod.all && !st.hv.hasAll() {
+		frameKeys = map[string]bool{}
+		for k := range mod.heap {
+			frameKeys[k] = true
+		}
+		name := fmt.Sprintf("%sloop%d", p.cur().prefix, ls.ord)
+		for _, fg := range p.frameGoals(st, allowed, whole, frameKeys) {
+			p.oblige(st, "frame", fmt.Sprintf("%s.frame[%s].init", name, fg.key), ftags, fg.goal, p.where(n))
+		}
+	}
 	p.havocMod(st, mod, n)
+	if frameKeys != nil && !st.hv.hasAll() {
+		for _, fg := range p.frameGoals(st, allowed, whole, frameKeys) {
+			st.assume(fg.goal)
+		}
+		p.loopFrame[fmt.Sprintf("%sloop%d", p.cur().prefix, ls.ord)] = frameKeys
+	}
 	// 3. assume invariants
 	for _, cl := range ls.invs {
 		ec := p.specEc(st, pos)
@@ -725,6 +745,17 @@ func (p *Proc) loopHead(st *State, n ast.Node, body *ast.BlockStmt, extraMod []*
 	return d0
 }
 
+// loopAssume applies the loop's assume clauses (unproved facts, listed in the evidence) at the
+// start of an iteration.
+func (p *Proc) loopAssume(st *State, ls loopSpec, pos token.Pos) {
+	for _, cl := range ls.assumes {
+		ec := p.specEc(st, pos)
+		ec.where = cl.Where
+		st.assume(p.eval(ec, cl.Expr).T)
+		p.ctx.notes["assumed at the start of every iteration of loop "+fmt.Sprint(ls.ord)+" of "+p.fi.Name+": "+cl.Text] = true
+	}
+}
+
 func (p *Proc) loopBack(st *State, ls loopSpec, d0 *Term, pos token.Pos) {
 	name := fmt.Sprintf("%sloop%d", p.cur().prefix, ls.ord)
 	for i, cl := range ls.invs {
@@ -732,6 +763,17 @@ func (p *Proc) loopBack(st *State, ls loopSpec, d0 *Term, pos token.Pos) {
 		ec.where = cl.Where
 		g := p.eval(ec, cl.Expr)
 		p.oblige(st, "inv.preserved", fmt.Sprintf("%s.inv[%d].preserved", name, i+1), cl.Tags, g.T, cl.Where)
+	}
+	if fk := p.loopFrame[name]; fk != nil {
+		if allowed, whole, ftags, ok := p.frameSets(); ok {
+			if st.hv.hasAll() {
+				p.oblige(st, "frame", name+".frame[havoc].preserved", ftags, TFalse, "")
+			} else {
+				for _, fg := range p.frameGoals(st, allowed, whole, fk) {
+					p.oblige(st, "frame", fmt.Sprintf("%s.frame[%s].preserved", name, fg.key), ftags, fg.goal, "")
+				}
+			}
+		}
 	}
 	if ls.dec != nil {
 		ec := p.specEc(st, pos)
@@ -758,6 +800,7 @@ func (p *Proc) execFor(st *State, x *ast.ForStmt, label string) flow {
 		exits = append(exits, ex)
 		body.assume(c.T)
 	}
+	p.loopAssume(body, ls, pos)
 	f := p.exec(body, x.Body)
 	backs := f.norm
 	for _, j := range f.cont {
@@ -876,6 +919,7 @@ func (p *Proc) execRange(st *State, x *ast.RangeStmt, label string) flow {
 			step = IntLit(1)
 		}
 		_ = hidden
+		p.loopAssume(st, ls, pos)
 		bf := p.exec(st, x.Body)
 		backs := bf.norm
 		for _, j := range bf.cont {
@@ -910,12 +954,7 @@ func (p *Proc) execRange(st *State, x *ast.RangeStmt, label string) flow {
 			p.wfAssume(st, v)
 			st.vars[keyObj] = v.T
 		}
-		for _, cl := range ls.assumes {
-			ec := p.specEc(st, pos)
-			ec.where = cl.Where
-			st.assume(p.eval(ec, cl.Expr).T)
-			p.ctx.notes["assumed at the start of every iteration of loop "+fmt.Sprint(ls.ord)+" of "+p.fi.Name+": "+cl.Text] = true
-		}
+		p.loopAssume(st, ls, pos)
 		bf := p.exec(st, x.Body)
 		backs := bf.norm
 		for _, j := range bf.cont {
@@ -1020,6 +1059,7 @@ func (p *Proc) execRangeMap(st *State, x *ast.RangeStmt, label string, m Val, mt
 		p.wfAssume(st, v)
 		st.vars[valObj] = v.T
 	}
+	p.loopAssume(st, ls, pos)
 	bf := p.exec(st, x.Body)
 	backs := bf.norm
 	for _, j := range bf.cont {
